@@ -1,0 +1,14 @@
+//go:build verif
+
+package cipher
+
+// Exports for the external verification harness (property C16). Add-only; compiled only with -tags verif.
+
+// VerifC16NonceRewriteLen calls nonceRewriteLen of a block cipher (one draw of math/rand inside).
+func VerifC16NonceRewriteLen(b BlockCipher) int { return b.(*aeadBlockCipher).nonceRewriteLen() }
+
+// VerifC16NewNonce calls newNonce of a block cipher (applies the nonce pattern, no user hint).
+func VerifC16NewNonce(b BlockCipher) ([]byte, error) { return b.(*aeadBlockCipher).newNonce() }
+
+// VerifC16NoncePatternApplied reports the noncePatternApplied flag.
+func VerifC16NoncePatternApplied(b BlockCipher) bool { return b.(*aeadBlockCipher).noncePatternApplied }
